@@ -96,4 +96,158 @@ example : WellFramed (serDoc (.cons [97] (.int64 1#64) .nil)) := by
   apply serDoc_wellFramed
   simp [serDoc, serElems, serVal, le32, le64, leN, BVal.tag]
 
+/-! ### the durability bound -/
+
+/-- samples in the complete writes of a writer -/
+def written (w : Writer) : Nat :=
+  (w.log.map fun e => match e with
+    | .full docs => (docs.map fun d => d.samples.length).sum
+    | .partialWrite _ _ => 0).sum
+
+/-- run a list of `Add`s; returns the collector and the number of accepted samples -/
+def runAdds (c : Streaming) (ds : List BDoc) : Streaming × Nat :=
+  ds.foldl (fun (acc : Streaming × Nat) d =>
+    let r := acc.1.add d
+    (r.1, if r.2 = .ok then acc.2 + 1 else acc.2)) (c, 0)
+
+/-- invariant of a streaming collector over a writer that never fails -/
+structure DInv (N : Nat) (c : Streaming) (k : Nat) : Prop where
+  script : c.out.script = []
+  maxS : c.maxSamples = N
+  maxD : c.inner.maxDeltas = N
+  cnt : c.count = c.inner.info.2
+  le : c.count ≤ N
+  refRows : c.inner.ref = none → c.inner.rows = []
+  mult : ∃ q, written c.out = N * q
+  cons : written c.out + c.count = k
+
+theorem dinv_new (N : Nat) : DInv N (Streaming.new N) 0 :=
+  ⟨rfl, rfl, rfl, by simp [Streaming.new, Better.info], by simp [Streaming.new], by intro _; rfl,
+    ⟨0, by simp [written, Streaming.new]⟩, by simp [written, Streaming.new]⟩
+
+theorem inner_add_info (b : Better) (d : BDoc) (hr : b.ref = none → b.rows = []) :
+    ((b.add d).2 = .ok → (b.add d).1.info.2 = b.info.2 + 1 ∧ (b.add d).1.maxDeltas = b.maxDeltas ∧
+        (b.add d).1.ref ≠ none) ∧
+    ((b.add d).2 ≠ .ok → (b.add d).1 = b) := by
+  unfold Better.add
+  cases hb : b.ref with
+  | none =>
+    have := hr hb
+    simp [Better.info, hb, this]
+  | some r =>
+    simp only
+    split
+    · simp
+    · split
+      · simp
+      · split
+        · simp
+        · simp [Better.info, hb]; omega
+
+theorem dinv_add (N : Nat) (hN : 1 ≤ N) (c : Streaming) (k : Nat) (d : BDoc) (h : DInv N c k) :
+    DInv N (c.add d).1 (if (c.add d).2 = .ok then k + 1 else k) := by
+  obtain ⟨hs, hm, hd, hc, hle, hrr, ⟨q, hq⟩, hcons⟩ := h
+  unfold Streaming.add
+  by_cases hfull : c.count ≥ c.maxSamples
+  · -- the pending chunk is flushed first
+    have hcN : c.count = N := by omega
+    have hinfo : c.info.2 = N := by simp [Streaming.info, ← hc, hcN]
+    have hne : ¬ c.info.2 = 0 := by omega
+    obtain ⟨r0, hr0⟩ : ∃ r0, c.inner.ref = some r0 := by
+      cases hx : c.inner.ref with
+      | some r0 => exact ⟨r0, rfl⟩
+      | none =>
+        have := hrr hx
+        simp [Streaming.info, Better.info, hx, this] at hinfo; omega
+    have hrows : c.inner.rows.length + 1 = N := by
+      simp [Streaming.info, Better.info, hr0] at hinfo; omega
+    -- what the flush does
+    have hflush : c.flush = ({ c with out := { c.out with log := c.out.log ++
+        [WEntry.full (match c.inner.metadata with
+          | some md => [OutDoc.metaDoc c.inner.startedAt md, OutDoc.chunk c.inner.startedAt r0 c.inner.first c.inner.rows]
+          | none => [OutDoc.chunk c.inner.startedAt r0 c.inner.first c.inner.rows])] } }.reset, true) := by
+      unfold Streaming.flush
+      rw [if_neg hne]
+      simp only [Streaming.resolve, Better.resolve, hr0]
+      cases hmd : c.inner.metadata <;> simp [Writer.write, hs]
+    simp only [hfull, if_true, hflush, Bool.not_true, Bool.false_eq_true, if_false]
+    generalize hc1 : ({ c with out := { c.out with log := c.out.log ++
+        [WEntry.full (match c.inner.metadata with
+          | some md => [OutDoc.metaDoc c.inner.startedAt md, OutDoc.chunk c.inner.startedAt r0 c.inner.first c.inner.rows]
+          | none => [OutDoc.chunk c.inner.startedAt r0 c.inner.first c.inner.rows])] } } : Streaming).reset = c1
+    have hw1 : written c1.out = written c.out + N := by
+      rw [← hc1]
+      simp only [Streaming.reset, written, List.map_append, List.sum_append, List.map_cons, List.map_nil,
+        List.sum_cons, List.sum_nil]
+      cases hmd : c.inner.metadata <;> simp [OutDoc.samples] <;> omega
+    have hi1 : c1.inner = c.inner.reset := by rw [← hc1]; rfl
+    have hcount1 : c1.count = 0 := by rw [← hc1]; rfl
+    have hs1 : c1.out.script = [] := by rw [← hc1]; exact hs
+    have hm1 : c1.maxSamples = N := by rw [← hc1]; exact hm
+    -- the inner collector is fresh: the sample is accepted
+    have hacc : (c1.inner.add d).2 = .ok := by rw [hi1]; simp [Better.add, Better.reset]
+    have hinfo1 := (inner_add_info c1.inner d (by rw [hi1]; intro _; rfl)).1 hacc
+    simp only [hacc, if_true]
+    refine ⟨hs1, hm1, by rw [hinfo1.2.1, hi1]; exact hd, ?_, ?_, ?_, ⟨q + 1, by rw [hw1, hq, Nat.mul_add]; omega⟩, ?_⟩
+    · show c1.count + 1 = (c1.inner.add d).1.info.2
+      rw [hinfo1.1, hi1, hcount1]; simp [Better.info, Better.reset]
+    · show c1.count + 1 ≤ N
+      rw [hcount1]; omega
+    · intro hnone; exact absurd hnone hinfo1.2.2
+    · show written c1.out + (c1.count + 1) = k + 1
+      rw [hw1, hcount1]; omega
+  · simp only [hfull, if_false, Bool.not_true, Bool.false_eq_true]
+    have hinfo := inner_add_info c.inner d hrr
+    by_cases hacc : (c.inner.add d).2 = .ok
+    · simp only [hacc, if_true]
+      have h1 := hinfo.1 hacc
+      refine ⟨hs, hm, by rw [h1.2.1]; exact hd, ?_, ?_, ?_, ⟨q, hq⟩, ?_⟩
+      · show c.count + 1 = (c.inner.add d).1.info.2
+        rw [h1.1, hc]
+      · show c.count + 1 ≤ N
+        omega
+      · intro hnone; exact absurd hnone h1.2.2
+      · show written c.out + (c.count + 1) = k + 1
+        omega
+    · have hne : ¬ ((SAddResult.inner (c.inner.add d).2) = SAddResult.ok) := by simp
+      simp only [hacc, if_false, hne]
+      exact ⟨hs, hm, hd, hc, hle, hrr, ⟨q, hq⟩, hcons⟩
+
+theorem dinv_run (N : Nat) (hN : 1 ≤ N) (ds : List BDoc) : ∀ (c : Streaming) (k : Nat), DInv N c k →
+    DInv N (ds.foldl (fun (acc : Streaming × Nat) d =>
+      let r := acc.1.add d
+      (r.1, if r.2 = .ok then acc.2 + 1 else acc.2)) (c, k)).1
+      (ds.foldl (fun (acc : Streaming × Nat) d =>
+      let r := acc.1.add d
+      (r.1, if r.2 = .ok then acc.2 + 1 else acc.2)) (c, k)).2 := by
+  induction ds with
+  | nil => intro c k h; exact h
+  | cons d ds ih =>
+    intro c k h
+    simp only [List.foldl_cons]
+    exact ih _ _ (dinv_add N hN c k d h)
+
+/-- **The durability bound.**  Over a writer that accepts every write, after any sequence of `Add`
+calls of which `k` were accepted, a streaming collector with chunk size `N ≥ 1` has already handed
+at least `N·⌊(k−1)/N⌋` samples to its writer, and every accepted sample is either in the writer
+or among the at most `N` pending ones. -/
+theorem durability_bound (N : Nat) (hN : 1 ≤ N) (ds : List BDoc) :
+    let r := runAdds (Streaming.new N) ds
+    N * ((r.2 - 1) / N) ≤ written r.1.out ∧ written r.1.out + r.1.count = r.2 ∧ r.1.count ≤ N := by
+  have h := dinv_run N hN ds (Streaming.new N) 0 (dinv_new N)
+  simp only [runAdds]
+  generalize (ds.foldl (fun (acc : Streaming × Nat) d =>
+      let r := acc.1.add d
+      (r.1, if r.2 = .ok then acc.2 + 1 else acc.2)) (Streaming.new N, 0)) = r at h ⊢
+  obtain ⟨_, _, _, _, hle, _, ⟨q, hq⟩, hcons⟩ := h
+  refine ⟨?_, hcons, hle⟩
+  rw [hq]
+  apply Nat.mul_le_mul_left
+  -- (k - 1) / N ≤ q  because  k = N*q + count  with  count ≤ N
+  apply Nat.le_of_lt_succ
+  rw [Nat.div_lt_iff_lt_mul (by omega)]
+  have : r.2 = N * q + r.1.count := by omega
+  rw [this, Nat.succ_mul, Nat.mul_comm q N]
+  omega
+
 end Ftdc.Props.C09
